@@ -40,8 +40,8 @@ def min_cost_dom_heuristic(
     """
     cp_top_idx = stacks_top[0]
     best_cost = sys.maxsize
-    best_value = -1
     shr_domain = shr_domains_stack[cp_top_idx, dom_idx]
+    best_value = shr_domain[MIN]  # the value chosen when no value of the domain has a positive cost
     for value in range(shr_domain[MIN], shr_domain[MAX] + 1):
         cost = params[dom_idx][value]
         if 0 < cost < best_cost:
